@@ -14,11 +14,11 @@ from .worlds import World, build_sim, make_config, make_env, mk_station, mk_vehi
 class FifoWorld(World):
     name = "W-fifo"
 
-    def __init__(self, plugs=("DCFC",), small: bool = False, pairs: bool = True, name: str = "", full_v1: bool = False, t0: bool = False, midnight: bool = False, fleets: bool = False, human: int = 0, home_at_station: bool = False):
+    def __init__(self, plugs=("DCFC",), small: bool = False, pairs: bool = True, name: str = "", full_v1: bool = False, t0: bool = False, midnight: bool = False, fleets: bool = False, human: int = 0, home_at_station: bool = False, drain: bool = False, l2_busy: bool = False):
         super().__init__()
         self.pairs = pairs
         self.name = name or ("W-fifo" + ("/2plugs" if len(plugs) > 1 else "") + ("/small" if small else "") + ("/full-arrival" if full_v1 else "") + ("/t0" if t0 else "")
-                             + ("/midnight" if midnight else "") + ("/fleets" if fleets else "") + (f"/human-off-after-{human}" if human else "") + ("/home-at-station" if home_at_station else ""))
+                             + ("/midnight" if midnight else "") + ("/fleets" if fleets else "") + (f"/human-off-after-{human}" if human else "") + ("/home-at-station" if home_at_station else "") + ("/drain" if drain else "") + ("/both-busy" if l2_busy else ""))
         S = sites()
         # t0: no early unplugging by the driver (soc limit 1.0), so that a charging vehicle leaves through the default
         # transition of the update phase when its battery is full (power-curve branch stops just below capacity)
@@ -44,6 +44,9 @@ class FifoWorld(World):
         if t0:
             v9 = mk_vehicle(env, rn, "v9", S["A"], "quiet", energy=49.8955)  # full (>= 49.9 kWh) after two steps on the power curve
         v5 = mk_vehicle(env, rn, "v5", S["N1"], "quiet", soc=0.3, fleets=fl("v5"))
+        if drain:
+            # v5 has a tiny battery with idle draw: waiting in the queue empties it to exactly 0.0 after three steps
+            v5 = mk_vehicle(env, rn, "v5", S["N1"], "tiny_thirsty", energy=0.12, fleets=fl("v5"))
         v3 = mk_vehicle(env, rn, "v3", S["M1"], "quiet", soc=0.3, fleets=fl("v3"))
         # full_v1: a small-battery vehicle that is still "full" when it arrives (must not block the queue)
         v1 = mk_vehicle(env, rn, "v1", S["N2"], "small", energy=1.0) if full_v1 else mk_vehicle(env, rn, "v1", S["N2"], "quiet", soc=0.3)
@@ -73,8 +76,16 @@ class FifoWorld(World):
             start, _ = self.step(init, (("I", "ChargeStation", "v9", "s0", "DCFC"),))
             assert start.vehicles["v9"].vehicle_state.__class__.__name__ == "ChargingStation"
             self.starts = {"v9-charging": start}
+            if l2_busy and "LEVEL_2" in plugs:
+                # both plug types taken from the start (v3 stands at the station and charges on LEVEL_2): two queues can form at once
+                v3b = mk_vehicle(env, rn, "v3", S["A"], "quiet", soc=0.3)
+                v7 = mk_vehicle(env, rn, "v7", S["N3"], "quiet", soc=0.3)  # a third vehicle free to join a queue
+                init2 = build_sim(env, rn, vehicles=(v9, v5, v3b, v1, v7), stations=(s0,), bases=bases, start=t_start)
+                start2, _ = self.step(init2, (("I", "ChargeStation", "v9", "s0", "DCFC"), ("I", "ChargeStation", "v3", "s0", "LEVEL_2")))
+                assert start2.vehicles["v3"].vehicle_state.__class__.__name__ == "ChargingStation"
+                self.starts = {"v9-charging,v3-charging": start2}
         menu = []
-        for vid in ("v9", "v5", "v3", "v1"):
+        for vid in ("v9", "v5", "v3", "v1") + (("v7",) if l2_busy and "LEVEL_2" in plugs else ()):
             for p in plugs:
                 menu.append(("I", "DispatchStation", vid, "s0", p))
             menu.append(("I", "Idle", vid))
